@@ -1,15 +1,15 @@
 #!/bin/bash
-# usage: tools_small.sh <worktree-with-SMALL-dir> <property>
+# usage: tools_small.sh <worktree-with-SMALL-dir> <property> [prefix, default small]
 # Imports a sub-agent's small breaking changes as selftest mutants (selftest/mutants/small-<prop>-sK-*.patch, property header = the
 # given property, no expected rule) and runs them; prints which ones the property's check misses, with the agent's description.
 set -u
-wt=$1; prop=$2; p=$(echo $prop | tr 'A-Z' 'a-z')
+wt=$1; prop=$2; pre=${3:-small}; p=$(echo $prop | tr 'A-Z' 'a-z')
 for f in $wt/SMALL/s*.diff; do
   [ -s "$f" ] || continue
   n=$(basename $f .diff)
   fn=$(jq -r --arg f "$n.diff" '.[] | select(.file==$f) | .function' $wt/SMALL/index.json 2>/dev/null | tr -c 'a-zA-Z0-9\n' '-' | tr 'A-Z' 'a-z' | cut -c1-40 | sed 's/-*$//;s/^-*//')
-  out=selftest/mutants/small-$p-$n-$fn.patch
+  out=selftest/mutants/$pre-$p-$n-$fn.patch
   { echo "# property: $prop"; echo "# expect: "; echo "# origin: independent sub-agent asked for small slips breaking $prop";
-    jq -r --arg f "$n.diff" '.[] | select(.file==$f) | "# clause: " + (.clause|gsub("\n";" ")) + "\n# manifests: " + (.manifests|gsub("\n";" "))' $wt/SMALL/index.json 2>/dev/null; cat $f; } > $out
+    jq -r --arg f "$n.diff" '.[] | select(.file==$f) | "# clause: " + (.clause|gsub("\n";" ")) + "\n# manifests: " + (.manifests|gsub("\n";" "))' $wt/SMALL/index.json 2>/dev/null; cat $f | python3 -c "import sys,re; t=sys.stdin.read(); parts=re.split(r'(?m)^(?=diff --git )',t); sys.stdout.write(''.join(x for x in parts if not re.match(r'diff --git a/go\.(mod|sum) ',x)))"; } > $out
 done
-SELFTEST_JOBS=${SELFTEST_JOBS:-4} selftest/run.py small-$p- 2>&1 | grep -E "^(PASS|FAIL|[0-9]+ variants)" | cut -c1-150
+SELFTEST_JOBS=${SELFTEST_JOBS:-4} selftest/run.py $pre-$p- 2>&1 | grep -E "^(PASS|FAIL|[0-9]+ variants)" | cut -c1-150
